@@ -141,6 +141,9 @@ pub fn main() {
     let exe = std::env::current_exe().unwrap();
     let selected: Vec<usize> = (0..its.len()).filter(|i| tier != "quick" || !its[*i].thorough_only).collect();
     let n = selected.len();
+    // The whole check takes about twice the per-scenario budget at most: with more scenarios
+    // than parallel jobs, each scenario gets a proportionally smaller share.
+    let budget = budget.min(budget * 2.0 * jobs as f64 / n.max(1) as f64).max(3.0);
     let next = std::sync::atomic::AtomicUsize::new(0);
     let results: Mutex<Vec<Option<Value>>> = Mutex::new(vec![None; n]);
     std::thread::scope(|s| {
